@@ -205,6 +205,14 @@ def main(argv=None):
         reports = r1.get() + r2.get()
 
     findings = load_findings()
+    # replay files describe THIS run only
+    rdir = os.path.join(VERIF, "replays", prop)
+    if os.path.isdir(rdir) and not a.only:
+        for fn in os.listdir(rdir):
+            try:
+                os.unlink(os.path.join(rdir, fn))
+            except OSError:
+                pass
     violations = []
     known = []
     errors = []
